@@ -36,11 +36,44 @@ pub fn run_fmt(toks: &[&str]) -> String {
     let line: Option<u32> = if toks[8] == "~" { None } else { Some(toks[8].parse().unwrap()) };
     let thread = opt_unhex(toks[9]).map(|b| ustr(&b));
     let msg = ustr(&unhex(toks[10]));
+    // key-value pairs: "~" or k=iN / k=sHEX separated by ';'
+    enum V {
+        I(u64),
+        S(String),
+    }
+    let kvs: Vec<(String, V)> = if toks.len() < 12 || toks[11] == "~" {
+        vec![]
+    } else {
+        toks[11]
+            .split(';')
+            .map(|t| {
+                let (k, v) = t.split_once('=').unwrap();
+                let key = ustr(&unhex(k));
+                if let Some(n) = v.strip_prefix('i') {
+                    (key, V::I(n.parse().unwrap()))
+                } else {
+                    (key, V::S(ustr(&unhex(&v[1..]))))
+                }
+            })
+            .collect()
+    };
     vh::set_tick(0);
     vh::set_now(Some(secs), micros * 1000);
     let work = move || {
         let mut buf: Vec<u8> = vec![];
         let f = format_fn(&kind, colored);
+        let source: Vec<(&str, log::kv::Value)> = kvs
+            .iter()
+            .map(|(k, v)| {
+                (
+                    k.as_str(),
+                    match v {
+                        V::I(n) => log::kv::Value::from(*n),
+                        V::S(s) => log::kv::Value::from(s.as_str()),
+                    },
+                )
+            })
+            .collect();
         let r = f(
             &mut buf,
             &mut DeferredNow::new(),
@@ -49,6 +82,7 @@ pub fn run_fmt(toks: &[&str]) -> String {
                 .module_path(module.as_deref())
                 .file(file.as_deref())
                 .line(line)
+                .key_values(&source)
                 .args(format_args!("{msg}"))
                 .build(),
         );
@@ -58,14 +92,34 @@ pub fn run_fmt(toks: &[&str]) -> String {
             out.push_str(&match serde_json::from_slice::<serde_json::Value>(&buf) {
                 Ok(v) => {
                     let s = |k: &str| v.get(k).and_then(|x| x.as_str()).map_or("~".to_string(), |x| hex(x.as_bytes()));
+                    // the kv object as serde_json reads it (with the default features its map keeps the keys sorted)
+                    let kvdec = match v.get("kv").and_then(serde_json::Value::as_object) {
+                        None => "~".to_string(),
+                        Some(m) => m
+                            .iter()
+                            .map(|(k, x)| {
+                                format!(
+                                    "{}:{}",
+                                    hex(k.as_bytes()),
+                                    match x {
+                                        serde_json::Value::Number(n) => format!("i{n}"),
+                                        serde_json::Value::String(t) => format!("s{}", hex(t.as_bytes())),
+                                        other => format!("?{other}"),
+                                    }
+                                )
+                            })
+                            .collect::<Vec<_>>()
+                            .join(","),
+                    };
                     format!(
-                        " dec[level={};thread={};module_path={};file={};line={};text={}]",
+                        " dec[level={};thread={};module_path={};file={};line={};text={};kv={}]",
                         s("level"),
                         s("thread"),
                         s("module_path"),
                         s("file"),
                         v.get("line").and_then(serde_json::Value::as_u64).map_or("~".to_string(), |n| n.to_string()),
-                        s("text")
+                        s("text"),
+                        kvdec
                     )
                 }
                 Err(_) => " dec[INVALID]".to_string(),
